@@ -116,7 +116,7 @@ fn exhaustive_general(prop: &str, thorough: bool) -> Vec<Scenario> {
 				let behv = vec![*b, behs[(n / 7) % behs.len()]];
 				let ending = endings[n % endings.len()];
 				let waiters = if prop == "C07" {
-					[Waiters::TaskPerTicket, Waiters::Single, Waiters::Clones(3), Waiters::Late][n % 4]
+					[Waiters::TaskPerTicket, Waiters::Single, Waiters::Clones(3), Waiters::Late, Waiters::PollThenClone][n % 5]
 				} else if n % 3 == 0 {
 					Waiters::Single
 				} else {
@@ -153,7 +153,7 @@ fn exhaustive_general(prop: &str, thorough: bool) -> Vec<Scenario> {
 					s.extend(seq.iter().cloned());
 					let steps = with_pattern(&s, pattern, g);
 					let ending = endings[n % endings.len()];
-					let waiters = if prop == "C07" { [Waiters::TaskPerTicket, Waiters::Single, Waiters::Clones(2)][n % 3] } else { Waiters::TaskPerTicket };
+					let waiters = if prop == "C07" { [Waiters::TaskPerTicket, Waiters::Single, Waiters::Clones(2), Waiters::PollThenClone][n % 4] } else { Waiters::TaskPerTicket };
 					out.push(scenario(steps, vec![*b], f, waiters, ending));
 				}
 			}
@@ -352,6 +352,7 @@ pub fn random(prop: &str, rng: &mut Rng, thorough: bool) -> Scenario {
 		("C07", 0) => Waiters::Single,
 		("C07", 1) => Waiters::Clones(2 + rng.usize(3)),
 		("C07", 2) => Waiters::Late,
+		("C07", 3) => Waiters::PollThenClone,
 		(_, 0) => Waiters::Single,
 		_ => Waiters::TaskPerTicket,
 	};
